@@ -540,7 +540,7 @@ impl<'a> IrEmitter<'a> {
                         super::super::types::Mutability::Immutable => quote! { &self },
                     }
                 } else {
-                    let pname = format_ident!("{}", &p.name);
+                    let pname = format_ident!("{}", Self::escape_keyword(&p.name));
                     let pty = self.emit_type(&p.ty);
                     quote! { #pname: #pty }
                 }
@@ -754,7 +754,7 @@ impl<'a> IrEmitter<'a> {
                         super::super::types::Mutability::Immutable => quote! { &self },
                     }
                 } else {
-                    let pname = format_ident!("{}", &p.name);
+                    let pname = format_ident!("{}", Self::escape_keyword(&p.name));
                     let pty = self.emit_type(&p.ty);
                     let needs_mut = mutated_params.contains(&p.name)
                         || matches!(p.mutability, super::super::types::Mutability::Mutable);
